@@ -133,7 +133,8 @@ impl Read for AdvReader {
                 }
             }
             ReaderKind::ReportMoreThanWritten(n) => {
-                if self.calls > 3 {
+                // two reads: each may claim the whole 1 MiB buffer, which is then hashed
+                if self.calls > 2 {
                     return Ok(0);
                 }
                 let k = 10.min(buf.len());
@@ -143,7 +144,7 @@ impl Read for AdvReader {
                 Ok((n as usize).min(buf.len()))
             }
             ReaderKind::NoWrite(n) => {
-                if self.calls > 3 {
+                if self.calls > 2 {
                     return Ok(0);
                 }
                 Ok((n as usize).min(buf.len()))
